@@ -429,12 +429,24 @@ class OpsMixin:
 
     def isinstance_test(self, v, cls, force=None):
         kn = self.kind_names(cls)
+        if kn is not None and type(v).__name__ == "Transf" and isinstance(v.inner, TNode) and not v.inner.kind.startswith("$"):
+            if v.inner.kind in ("Name", "NamedExpr"):
+                return self.decide(f"isinstance:X({v.inner.kind}@{v.inner.site}):{'|'.join(sorted(kn))[:50]}")
+            return v.inner.kind in kn
         if kn is not None and type(v).__name__ == "Transf" and isinstance(v.inner, UNode):
             # the rewriter preserves the kind of every node except names and walruses
             changing = {"Name", "NamedExpr", "Subscript", "Call", "List"}
             if not (kn & changing):
                 return self.kind_test(v.inner, kn)
             res = self.decide(f"isinstance:X({v.inner.path()}):{'|'.join(sorted(kn))[:50]}")
+            if res and kn & v.inner.kinds and not (kn & {"Name"}):
+                # either the user wrote that kind, or it is the rewritten form of a name / walrus
+                origin = self.decide(f"rewritten-from:X({v.inner.path()})", ["same-kind", "name-or-walrus"]) if v.inner.kinds & {"Name", "NamedExpr"} else "same-kind"
+                if origin == "same-kind":
+                    v.inner.kinds = frozenset(kn & v.inner.kinds)
+                    v.inner.opt = False
+                else:
+                    v.inner.kinds = frozenset(v.inner.kinds & {"Name", "NamedExpr"})
             if res and kn == {"Name"} and "Name" in v.inner.kinds:
                 # a rewritten node that is still a plain Name is the user's own name, loaded plainly
                 v.inner.kinds = frozenset(["Name"])
@@ -675,11 +687,27 @@ class OpsMixin:
             return Unknown(f"{self.describe(v)}.{name}")
         if isinstance(v, Sym):
             return BoundBuiltin(v, name)
+        if type(v).__name__ == "Transf" and isinstance(v.inner, TNode) and v.inner.kind not in ("Name", "NamedExpr") and not v.inner.kind.startswith("$"):
+            from .vals import Transf
+
+            sub = v.inner.fields.get(name)
+            if sub is None:
+                return self.getattr(v.inner, name, node)
+
+            def wrap(x):
+                if isinstance(x, (TNode, UNode)):
+                    return Transf(v.nsp, x, v.site)
+                return x
+
+            if isinstance(sub, PList):
+                return PList([wrap(i) if not isinstance(i, (Rep, Splice)) else i for i in sub.items])
+            return wrap(sub)
         if type(v).__name__ == "Transf" and isinstance(v.inner, UNode):
             if v.inner.kinds == {"Name"} and name == "id":
                 return self.unode_getattr(v.inner, name, node)
             if v.inner.kinds & {"Name", "NamedExpr"}:
-                raise AnalysisError(f"attribute {name} of a rewritten expression that may be a name at {self.cur_site}")
+                # the rewritten form of a name / walrus (a namespace-specific load or store)
+                return Unknown(f"X({v.inner.path()}).{name}")
             sub = self.unode_getattr(v.inner, name, node)
             if isinstance(sub, UNode):
                 from .vals import Transf
